@@ -345,11 +345,18 @@ class TokenizerState:
         self.continued = False
         self.indents = [0]
         self.alt_indents = [0]  # the same levels measured with a tab counted as one column
+        self._last_index: tuple[int, str, int] = (0, "", -1)
         self.last_line = ""
         self.line = ""
         self.pos = 0
         self.max = 0
         self.end_progs: list[EndProg] = []
+
+    def last_index(self, char: str) -> int:
+        """Where `char` occurs last in the current line (found once per line, not once per token)."""
+        if self._last_index[:2] != (self.lnum, char):
+            self._last_index = (self.lnum, char, self.line.rfind(char) if char else self.max)
+        return self._last_index[2]
 
     def move_next_line(self, readline: Callable[[], str]) -> None:
         self.last_line = self.line
@@ -562,7 +569,8 @@ def next_psuedo_matches(state: TokenizerState) -> TokenInfo | None:
     start, end = match.span(match.lastgroup)
     if match.lastgroup == "Name" and end < state.max and not state.line[end].isascii():
         # identifier characters that \w does not cover (combining marks, variation selectors)
-        while end < state.max and state.line[start : end + 1].isidentifier():
+        # (a character continues an identifier iff it does so after any identifier start: no need to re-test the whole name)
+        while end < state.max and ("a" + state.line[end]).isidentifier():
             end += 1
     spos, epos, state.pos = (state.lnum, start), (state.lnum, end), end
     token = state.line[start:end]
@@ -700,7 +708,9 @@ def handle_end_progs(state: TokenizerState) -> Iterator[TokenInfo]:
         # else:
         #     raise TokenError(f"Expected {endprog.quote} inside f-string", (state.lnum, state.pos))
 
-    elif endmatch := state.match(state.end_progs[-1].pattern):  # all on one line
+    elif state.last_index(state.end_progs[-1].quote[:1]) >= state.pos and (
+        endmatch := state.match(state.end_progs[-1].pattern)
+    ):  # all on one line
         end = endmatch.end(0)
         yield state.prog_token(end, Token.STRING)
         state.pop_mode()
@@ -766,7 +776,7 @@ def _scan_lines(state: TokenizerState, readline: Callable[[], str]) -> Iterator[
             elif pos == state.pos and not state.line[pos].isascii() and state.line[pos].isidentifier():
                 # an identifier start that \w does not cover (U+2118, U+212E, U+1885, U+1886)
                 end = pos + 1
-                while end < state.max and state.line[pos : end + 1].isidentifier():
+                while end < state.max and ("a" + state.line[end]).isidentifier():
                     end += 1
                 yield TokenInfo(Token.NAME, state.line[pos:end], (state.lnum, pos), (state.lnum, end), state.line)
                 state.pos = end
